@@ -216,6 +216,33 @@ EXPECTED['_asdouble'] = ["isinstance(v, np.ndarray) and v.dtype.kind == 'f' and 
 EXPECTED_SIG_ALT, EXPECTED_ALT = {}, {}
 
 
+TSOFT = [('spatialmath/base/quaternions.py', 'slerp'), ('spatialmath/base/quaternions.py', 'unit'), ('spatialmath/base/quaternions.py', 'r2q'),
+         ('spatialmath/base/vectors.py', 'isunitvec'), ('spatialmath/base/vectors.py', '_asdouble'), ('spatialmath/base/transforms3d.py', 'trinterp'),
+         ('spatialmath/quaternion.py', 'UnitQuaternion.interp')]
+_TSOFT_STOP = {'slerp', 'unit', 'r2q', 'isunitvec', 'trinterp', 'UnitQuaternion.interp', 'interp'}
+
+
+def _tsoft_same(name, cls=None):
+    """structure changed: are the numeric thresholds of the function and its helper closure still the recorded ones?"""
+    from lib import tsoft
+    qual = (cls + '.' if cls else '') + name
+    for rel, q in TSOFT:
+        if q == qual:
+            return tsoft.same_thresholds(REPO, 'C11', rel, q, _TSOFT_STOP - {q})[0]
+    return False
+
+
+def _tsoft_slerp_k():
+    import re
+    from lib import tsoft
+    ok, found, base = tsoft.same_thresholds(REPO, 'C11', 'spatialmath/base/quaternions.py', 'slerp', _TSOFT_STOP - {'slerp'})
+    if not ok:
+        return None
+    ks = [re.fullmatch(r'cmp Gt (\d+)\*eps', t) for t in found]
+    ks = [m for m in ks if m]
+    return int(ks[0].group(1)) if len(ks) == 1 else None
+
+
 def consts_from_ast(ctx):
     """returns (constants, layout_notes).  Fail-closed (SkeletonError) when the structure signature of a modelled function -- its
     normalised guards / comparisons, numeric constants and callees -- is not the recorded one; a function whose signature is unchanged but
@@ -235,6 +262,12 @@ def consts_from_ast(ctx):
             ks = [re.fullmatch(r'abs\(_v\) > (\d+) \* _eps', a) for a in atoms]
             ks = [m for m in ks if m]
             if len(ks) != 1:
+                k_soft = _tsoft_slerp_k()
+                if k_soft is not None:
+                    res['slerp_k'] = k_soft
+                    notes.append(f"slerp: restructured (no single test of the form `abs(theta) > k * _eps` in slerp itself) but the threshold multiset of "
+                                 f"slerp + its helpers is the recorded one (k = {k_soft}); numeric correspondence escalated")
+                    continue
                 raise SkeletonError(f"slerp: no (single) small-angle test of the form `abs(theta) > k * _eps`: {atoms}")
             k = ks[0].group(1)
             res['slerp_k'] = int(k)
@@ -243,6 +276,10 @@ def consts_from_ast(ctx):
         want = EXPECTED_SIG[name]
         got = (atoms, consts if want[1] is not None else None, callees)
         alt = got == EXPECTED_SIG_ALT.get(name)
+        if got != want and not alt and _tsoft_same(name, cls):
+            notes.append(f"{name}: structure signature differs from the recorded one, but the numeric thresholds of {name} and of the same-module helpers it "
+                         f"calls are exactly the recorded ones (lib/tsoft.py); the hand model keeps its constants, numeric correspondence escalated")
+            continue
         if got != want and not alt:
             diff = [f"{lab}: +{sorted(set(g) - set(w))} -{sorted(set(w) - set(g))}" for lab, g, w in
                     zip(('guards', 'constants', 'callees'), got, want) if g != w and g is not None]
